@@ -616,3 +616,21 @@ Fixpoint get (p : list step) (t : tree) : option tree :=
 (* no map anywhere in the tree has a repeated key *)
 Definition unique_keys (t : tree) : Prop :=
   forall p es, get p t = Some (TMap es) -> NoDup (map fst es).
+
+(* same spec rank: the equivalence classes that a stable sort keeps in input order *)
+Definition elem_eqb (z y : elem) : bool := match elem_cmp z y with Eq => true | _ => false end.
+
+(* ascending under the spec order *)
+Definition elem_le (a b : elem) : Prop := elem_cmp a b <> Gt.
+
+(* "the comparator says a <= b" *)
+Definition cmp_le (a b : scalar) : Prop := exists c, cmp_sign a b = Some c /\ c <> Gt.
+
+(* the order min (greater = false) / max (greater = true) minimise *)
+Definition sup_cmp (greater : bool) (x y : scalar) : comparison :=
+  if greater then ord_cmp (vden y) (vden x) else ord_cmp (vden x) (vden y).
+
+(* decidable form of [consistent] (sound: Proofs/SortProofs.v consistentb_sound) *)
+Definition all_keys (l : list elem) : list scalar := flat_map e_keys l.
+Definition consistentb (l : list elem) : bool :=
+  forallb (fun x => forallb (fun y => pair_ok x y) (all_keys l)) (all_keys l).
